@@ -156,6 +156,8 @@ def safe_raw(summary):
         if OT in safe and ND in safe:
             bad = tuple(("lit", ord(c)) for c in summary["unsafe"] if c not in (ND, OT))
             return ("set", True, bad)
+        if ND in safe and OT not in safe and all(c in safe for c in ASCII_DIGITS):
+            return ("set", False, items + (("cat", "digit"),))
         raise AnalysisError("string function accepts a non-ASCII class partially: not modelled")
     return ("set", False, items)
 
